@@ -301,4 +301,42 @@ func genDec(r *rand.Rand, tier, id string) Case {
 func init() {
 	runners["dec"] = runDec
 	generators["C13d"] = genDec
+	generators["C13v"] = genBigValues
+}
+
+// genBigValues: values whose length prefix sits at the two-byte / three-byte uvarint boundary
+// (16383, 16384, 16385) and a large one (70000 bytes): written, read back through every path,
+// committed, re-read after reopening, decoded from the raw store, exported and imported. The case
+// is short: such a value is printed by every operation that returns it.
+func genBigValues(r *rand.Rand, tier, id string) Case {
+	c := Case{ID: id, Kind: "m1", Params: []string{"iv=-"}, Cfgs: configsFor(r, tier, 1)}
+	n := []int{16383, 16384, 16385}[r.Intn(3)]
+	if tier != "quick" && r.Intn(4) == 0 {
+		n = 70000
+	}
+	big := make([]byte, n)
+	r.Read(big)
+	k := []string{"61", "6d", "7a"}
+	add := func(op ...string) { c.Ops = append(c.Ops, op) }
+	add("set", k[0], "31")
+	add("set", k[1], hx(big))
+	add("set", k[2], "33")
+	add("r", "w", "get", k[1])
+	add("r", "w", "hash")
+	add("save")
+	add("r", "v1", "get", k[1])
+	add("r", "v1", "proof", k[1])
+	add("audit", "raw")
+	add("audit", "fastvals")
+	add("reopen")
+	add("r", "w", "get", k[1])
+	add("r", "v1", "iter", k[1], k[2], "0", "1")
+	add("expimp", "1", []string{"plain", "compress"}[r.Intn(2)], i64(r.Int63n(1<<30)))
+	add("set", k[1], "32")
+	add("save")
+	add("changes", "1", "3")
+	add("prune", "1")
+	add("audit", "nodes")
+	add("r", "v2", "get", k[1])
+	return c
 }
